@@ -277,10 +277,17 @@ func (s *Solver) CheckWith(ts ...*Term) string {
 	for _, x := range texts {
 		s.send("(assert " + x + ")")
 	}
+	t0 := time.Now()
 	r := s.Check()
+	if d := time.Since(t0); d > 3*time.Second && SlowLog != nil {
+		SlowLog(d, r, texts)
+	}
 	s.send("(pop 1)")
 	return r
 }
+
+// SlowLog, when set, is told about queries that take longer than 3 s.
+var SlowLog func(d time.Duration, res string, asserts []string)
 
 // readSexp reads one balanced s-expression (or atom line) from the solver.
 func (s *Solver) readSexp() string {
